@@ -93,6 +93,7 @@ CMP = {ast.Lt: operator.lt, ast.LtE: operator.le, ast.Gt: operator.gt, ast.GtE: 
 class Interp:
     def __init__(self, glob, loop_bound=16, exact_div=False):
         self.glob = glob
+        self.fork_ifs = False        # True: a symbolic `if` forks the run (fork mode) instead of merging both branches
         self.exact_div = exact_div   # int/int division of concrete operands is kept as an exact Fraction (not a rounded double)
         self.loop_bound = loop_bound
         self.merge_depth = 0
@@ -246,6 +247,19 @@ class Interp:
         r = ctx.cur()
         if r is not None and not isinstance(f, _Closure):
             r.where = ast.unparse(n)[:70]
+        selfobj = getattr(f, "__self__", None)
+        if (isinstance(selfobj, rnp.ndarray)) or (getattr(f, "__module__", None) or "").startswith("numpy"):
+            # real numpy receiving the sym-aware builtins as dtypes (x.astype(int), np.zeros(n, dtype=float))
+            from .shim import _real_dtype
+            args = [_real_dtype(a) if callable(a) else a for a in args]
+            kw = {k: (_real_dtype(v) if callable(v) else v) for k, v in kw.items()}
+        import types as _t
+        if isinstance(f, _t.FunctionType) and getattr(f, "__module__", None) == self.glob.get("__name__") and f.__name__ in self.glob and self.glob.get(f.__name__) is f:
+            # a helper of the module under analysis: interpret it from its source as well
+            try:
+                return _Closure(self, get_function_ast(f), {})(*args, **kw)
+            except (OSError, TypeError):
+                pass
         return f(*args, **kw)
 
     def e_ListComp(self, n, env):
@@ -375,6 +389,8 @@ class Interp:
         s = z3.simplify(c.t)
         if z3.is_true(s): return self.block(n.body, env)
         if z3.is_false(s): return self.block(n.orelse, env)
+        if self.fork_ifs and self.merge_depth == 0:
+            return self.block(n.body if bool(c) else n.orelse, env)
         return self.merge(c.t, lambda e: self.block(n.body, e), lambda e: self.block(n.orelse, e), env)
 
     def merge(self, ct, then_f, else_f, env):
@@ -508,14 +524,24 @@ class _Closure:
         a = self.fd.args
         names = [p.arg for p in a.args]
         defaults = a.defaults
+        kw = dict(kw)
         for i, nm in enumerate(names):
             if i < len(args):
                 env[nm] = args[i]
             elif nm in kw:
-                env[nm] = kw[nm]
+                env[nm] = kw.pop(nm)
             else:
                 d = i - (len(names) - len(defaults))
                 env[nm] = self.interp.ev(defaults[d], self.env)
+        for p, dflt in zip(a.kwonlyargs, a.kw_defaults):
+            if p.arg in kw:
+                env[p.arg] = kw.pop(p.arg)
+            elif dflt is not None:
+                env[p.arg] = self.interp.ev(dflt, self.env)
+        if a.vararg is not None:
+            env[a.vararg.arg] = tuple(args[len(names):])
+        if a.kwarg is not None:
+            env[a.kwarg.arg] = kw
         try:
             self.interp.block(self.fd.body, env)
         except _Return as r:
